@@ -176,6 +176,19 @@ CLAIMED = {
         note=TB + "The JSON nesting limit depends on the interpreter stack depth at the call; inputs within ~100 levels of the limit are not generated.",
         technique="Coq proof (totality by case analysis + measured decoder-failure table) + correspondence on a malformed-input stream + session probe oracle",
         ref='6/C05'),
+    'C03': dict(
+        text=("Proof (partial): on the model of the tail of _throttled_request, for every handler outcome (value, non-encodable "
+              "value, RPCError with code/message/cost, ProtocolError, other exception, overrun, ReplyAndDisconnect of a value / "
+              "an error / a non-encodable value, refusal): exactly one reply under the request's id carrying the value, the "
+              "handler's own code and message, -32603, -102 or -101, nothing for a notification; for every assignment of "
+              "outcomes to any number of requests/notifications and every completion order the session stays alive, the wire "
+              "holds exactly the replies in completion order, every failed request adds 1 error and base + specific cost. The "
+              "property was FALSE on the original tree for non-encodable results (F8, message loop died with the transport "
+              "open): repaired by a fix: commit. Correspondence: real serving RPCSession in virtual time, up to 12 concurrent "
+              "requests / notifications / batch members with scripted behaviours and completion orders, then a probe request."),
+        note=TB + "Partial: the handler's own code is represented by its outcome; handlers swallowing cancellation and the limiter/timeouts around the handler are C13/C11.",
+        technique="Coq proof (total case analysis + fold invariant over completion orders) + virtual-time session correspondence and oracle",
+        ref='6/C03'),
 }
 
 REASONS = {}
